@@ -44,6 +44,39 @@ type memStore struct {
 	faultLeft  int
 	faultFired int  // number of faults that have fired so far
 	suspended  bool // the harness's own reads (reopen oracle) do not count and do not fail
+
+	// optional real adapter behind the recording store (suite c11pebble): every write goes to both, every read is answered
+	// by the real adapter and compared with the reference map
+	inner        storage.StorageAdapter
+	reopenFn     func() (storage.StorageAdapter, error) // Close + open the same directory again
+	mismatches   []string
+	nfTranslated int
+}
+
+// isKVNotFound: the not-found class as the trie's code tests for it (identity or message of wmpt.ErrKVNotFound)
+func isKVNotFound(err error) bool {
+	return err != nil && (errors.Is(err, wmpt.ErrKVNotFound) || err.Error() == wmpt.ErrKVNotFound.Error())
+}
+
+func (s *memStore) noteMismatch(f string, a ...interface{}) {
+	if len(s.mismatches) < 8 {
+		s.mismatches = append(s.mismatches, fmt.Sprintf(f, a...))
+	}
+}
+
+// reopen closes the real adapter and opens its directory again (a process restart as far as the storage is concerned)
+func (s *memStore) reopen() error {
+	s.mu.Lock()
+	defer s.mu.Unlock()
+	if s.inner == nil || s.reopenFn == nil {
+		return nil
+	}
+	in, err := s.reopenFn()
+	if err != nil {
+		return err
+	}
+	s.inner = in
+	return nil
 }
 
 var errInjected = errors.New("injected storage failure")
@@ -96,6 +129,28 @@ func (s *memStore) Get(k []byte) ([]byte, error) {
 		return nil, errInjected
 	}
 	v, ok := s.m[string(k)]
+	if s.inner != nil {
+		rv, err := s.inner.Get(k)
+		switch {
+		case err != nil && !isKVNotFound(err):
+			s.noteMismatch("real adapter: Get(%x) failed: %v", k, err)
+		case err != nil && ok:
+			s.noteMismatch("real adapter: Get(%x) = not found, the reference holds %d bytes", k, len(v))
+		case err == nil && !ok:
+			s.noteMismatch("real adapter: Get(%x) = %d bytes, the reference has no such key", k, len(rv))
+		case err == nil && !bytes.Equal(rv, v):
+			s.noteMismatch("real adapter: Get(%x) = %x…, the reference holds %x…", k, rv[:min(len(rv), 12)], v[:min(len(v), 12)])
+		}
+		if isKVNotFound(err) {
+			// pebble.ErrNotFound has the MESSAGE of wmpt.ErrKVNotFound, not its identity, and three places of wmpt (path.go 45
+			// and 64, proof.go 19) map a missing node to ErrNotFound with errors.Is only: over the real adapter they return the
+			// raw pebble error (reported; notes/C11.md). The histories are about the trie over a working storage, so the
+			// recording store hands out the sentinel; the adapter's own not-found class is checked by c11pebblekv.
+			s.nfTranslated++
+			err = wmpt.ErrKVNotFound
+		}
+		return rv, err
+	}
 	if !ok {
 		return nil, wmpt.ErrKVNotFound
 	}
@@ -119,6 +174,11 @@ func (s *memStore) Put(k, v []byte) error {
 	if s.hitLocked("put") {
 		return errInjected
 	}
+	if s.inner != nil {
+		if err := s.inner.Put(k, v); err != nil {
+			return err
+		}
+	}
 	s.applyLocked(logEntry{ops: []kvOp{{k: string(k), v: append([]byte(nil), v...)}}})
 	return nil
 }
@@ -129,13 +189,26 @@ func (s *memStore) Delete(k []byte) error {
 	if s.hitLocked("del") {
 		return errInjected
 	}
+	if s.inner != nil {
+		if err := s.inner.Delete(k); err != nil {
+			return err
+		}
+	}
 	s.applyLocked(logEntry{ops: []kvOp{{del: true, k: string(k)}}})
 	return nil
 }
 
 func (s *memStore) Close() {}
 
-func (s *memStore) NewBatch() storage.Batcher { return &memBatch{s: s} }
+func (s *memStore) NewBatch() storage.Batcher {
+	b := &memBatch{s: s}
+	s.mu.Lock()
+	if s.inner != nil {
+		b.in = s.inner.NewBatch()
+	}
+	s.mu.Unlock()
+	return b
+}
 
 func (s *memStore) keys() map[string]bool {
 	s.mu.Lock()
@@ -167,6 +240,7 @@ type memBatch struct {
 	mu  sync.Mutex // Commit() of the trie writes from several goroutines
 	s   *memStore
 	ops []kvOp
+	in  storage.Batcher // the real adapter's batch, fed with the caller's own buffers
 }
 
 func (b *memBatch) Put(k, v []byte) error {
@@ -176,6 +250,9 @@ func (b *memBatch) Put(k, v []byte) error {
 		return errInjected
 	}
 	b.ops = append(b.ops, kvOp{k: string(k), v: append([]byte(nil), v...)})
+	if b.in != nil {
+		return b.in.Put(k, v)
+	}
 	return nil
 }
 
@@ -186,16 +263,24 @@ func (b *memBatch) Delete(k []byte) error {
 		return errInjected
 	}
 	b.ops = append(b.ops, kvOp{del: true, k: string(k)})
+	if b.in != nil {
+		return b.in.Delete(k)
+	}
 	return nil
 }
 
-func (b *memBatch) Commit(bool) error {
+func (b *memBatch) Commit(sync bool) error {
 	b.mu.Lock()
 	defer b.mu.Unlock()
 	b.s.mu.Lock()
 	defer b.s.mu.Unlock()
 	if b.s.hitLocked("bcommit") {
 		return errInjected // atomic: nothing of the batch is applied; the batch can be committed again
+	}
+	if b.in != nil {
+		if err := b.in.Commit(sync); err != nil {
+			return err
+		}
 	}
 	b.s.applyLocked(logEntry{ops: b.ops, batch: true})
 	b.ops = nil
